@@ -406,3 +406,49 @@ def run(fns, unit):
     if what == 'query':
         return run_query(fns, unit['width'], tmo, unit.get('thresholds'))
     return {'error': 'unknown lossy unit'}
+
+
+# --------------------------------------------------------------------------- translator validation
+def eval_concrete_add(fns, case):
+    """case: width, n, known [[k,f,d]...], y -> post-state through the encoding (unique feasible path)."""
+    I = LossyInterp(fns, K)
+    add = I.find(r'lossycounter::<impl.*>::add$')
+    present, f, d, T, n, width = state()
+    eps = z3.FP('eps', z3.Float64())
+    y = z3.BitVec('y', 64)
+    m = MapObj(K, present, [Struct('KnownEntry', [f[k], d[k]]) for k in range(K)])
+    world = {'locals': {'self': Struct('LossyCounter', [eps, m, n, width])}}
+    I.world = world
+    kn = {k: (ff, dd) for k, ff, dd in case['known']}
+    n1 = case['n'] + 1
+    w = case['width']
+    pins = [n == case['n'], width == w, y == case['y'], UDIV(bv(n1), bv(w)) == n1 // w, UREM(bv(n1), bv(w)) == n1 % w]
+    for k in range(K):
+        pins.append(present[k] == (k in kn))
+        pins += [f[k] == kn.get(k, (0, 0))[0], d[k] == kn.get(k, (0, 0))[1]]
+    res = I.run(add, [Ref((('local', world, 'self'), [])), y], z3.And(pins))
+    found = []
+    for pc, kind, val, snap in res:
+        r, mdl = solve(pins + [pc], 60000)
+        if r == z3.sat:
+            found.append((kind, val, snap, mdl))
+    if len(found) != 1:
+        return {'error': 'expected one feasible path, got %d' % len(found)}
+    kind, val, snap, mdl = found[0]
+    if kind == 'panic':
+        return {'result': 'panic'}
+    g = lambda e: mdl.eval(e, model_completion=True)
+    st = snap['self']
+    m2 = st.fields[1]
+    known = sorted([k, g(m2.vals[k].fields[0]).as_long(), g(m2.vals[k].fields[1]).as_long()] for k in range(K) if z3.is_true(g(m2.present[k])))
+    return {'result': 'true' if z3.is_true(g(val)) else 'false', 'n': g(st.fields[2]).as_long(), 'known': known}
+
+
+def random_case(rng):
+    w = rng.choice([1, 2, 3, 4, 5])
+    n = rng.randrange(0, 12)
+    known = []
+    for k in range(K):
+        if rng.random() < 0.6:
+            known.append([k, rng.randrange(1, 5), rng.randrange(0, 3)])
+    return {'op': 'add', 'width': w, 'n': n, 'known': known, 'y': rng.randrange(K), 'T': [0, 0, 0]}
